@@ -733,27 +733,40 @@ def session_history_cases(ctx, lc):
     from tlslite.messages import Alert
     vers = [(3, 3), (3, 1)] if not ctx.thorough() else [(3, 3), (3, 2), (3, 1), (3, 0)]
     histories = ["o", "oo", "t", "a", "s", "ot", "oa", "os", "oot", "ooa", "oto", "oao", "oso", "ooo"]
+    # stateless tickets: only the CLIENT holds state, so only ends that are a failure for the client are judged
+    ticket_histories = ["o", "oo", "s", "os", "oos", "ooo"]   # (after a failure the next full handshake starts a NEW session)
     chain, key = lab.creds("rsa")
-    for ver in vers:
-        for hist in histories:
-            cache = SessionCache()
+    plans = [(ver, "id", h) for ver in vers for h in histories]
+    plans += [((3, 3), "ticket", h) for h in ticket_histories] + [((3, 4), "psk", h) for h in ticket_histories]
+    for ver, flavour, hist in plans:
+        if True:
+            cache = SessionCache() if flavour == "id" else None
             session = None
             trace = []
             ok_setup = True
             for i, end in enumerate(hist + "?"):
-                cs, ss = lab.settings(minv=ver, maxv=ver), lab.settings(minv=ver, maxv=ver)
+                if ver == (3, 4):
+                    cs, ss = _conn.tls13_settings(), _conn.tls13_settings()
+                else:
+                    cs, ss = lab.settings(minv=ver, maxv=ver), lab.settings(minv=ver, maxv=ver)
+                if flavour != "id":
+                    ss.ticketKeys = [bytearray(b"\x29" * 32)]
                 L = lab.Lab()
                 kw = {"session": session} if session is not None else {}
+                skw = {"sessionCache": cache} if cache is not None else {}
                 L.start_client(lambda c: c.handshakeClientCert(settings=cs, async_=True, **kw))
-                L.start_server(lambda c: c.handshakeServerAsync(certChain=chain, privateKey=key, settings=ss, sessionCache=cache))
+                L.start_server(lambda c: c.handshakeServerAsync(certChain=chain, privateKey=key, settings=ss, **skw))
                 L.run()
                 if L.client.state != "done" or L.server.state != "done":
                     ok_setup = False
                     break
+                if ver == (3, 4):
+                    for _ in range(3):
+                        L.read("client", min=0)          # TLS 1.3 tickets arrive after the handshake
                 c, sv = L.client.conn, L.server.conn
                 trace.append("resumed=%d/%d" % (c.resumed, sv.resumed))
-                if session is None:
-                    session = c.session
+                if session is None or flavour == "psk":
+                    session = c.session                   # (TLS 1.3: the tickets live in the connection's own session)
                 if end == "?":
                     break
                 if end == "o":
@@ -773,19 +786,20 @@ def session_history_cases(ctx, lc):
                     L.op("server", sv._sendMsg(Alert().create(40, 2)), pump_other=False)
                     r = L.read("client")
                     trace.append("alert-to-client:%s" % (lab.exc_class(r[1]) if r[0] == "error" else r[0]))
-            case = {"stage": "session-history", "ver": list(ver), "history": hist, "trace": trace}
-            ctx.case(key=("session-history", ver, hist), sample=case if hist == "ot" else None)
+            case = {"stage": "session-history", "ver": list(ver), "flavour": flavour, "history": hist, "trace": trace}
+            ctx.case(key=("session-history", ver, flavour, hist), sample=case if hist == "ot" else None)
             ctx.count("session-history:" + ("fatal" if any(x != "o" for x in hist) else "orderly"))
             if not ok_setup:
                 ctx.count("session-history-setup-failed")
                 continue
-            resumed = bool(c.resumed and sv.resumed)
+            # (a TLS 1.3 server does not set .resumed after a PSK handshake - C13's observation; the client does)
+            resumed = bool(c.resumed and (sv.resumed or flavour == "psk"))
             any_resumed = bool(c.resumed or sv.resumed)
             fatal = any(x != "o" for x in hist)
             if fatal and any_resumed:
                 ctx.violation("c17:session-resumed-after-fatal-failure",
-                              "TLS %s, connection history %r (o orderly close, t truncation, a/s fatal alert to server/client): the next "
-                              "handshake RESUMED the session although a connection using it ended with a fatal failure; %s"
+(                              "TLS %s [" + flavour + "], connection history %r (o orderly close, t truncation, a/s fatal alert to server/client): the next "
+                              "handshake RESUMED the session although a connection using it ended with a fatal failure; %s")
                               % (ver, hist, " ".join(trace)), case)
             if not fatal and not resumed:
                 ctx.violation("c17:session-not-resumable-after-orderly-close",
